@@ -315,6 +315,42 @@ def check(ctx):
                 ctx.violation("counterexample", "errors are lost when several failing packages are translated in one invocation",
                               dict(inp, proto="cli-error"), expected="%d packages × %d errors" % (npk, nbad), observed={"error_counts": counts, "exit": rc, "stderr_tail": err[-800:]})
         shutil.rmtree(root, ignore_errors=True)
+        # (e) whole-package refusals: a type-correct package that goose does not translate at all (it reaches two FFIs, directly or
+        #     through a dependency) is refused with a structured, located error too, and its neighbours are still translated
+        two = {"direct": {"p.go": "package direct\n\nimport (\n\t\"github.com/goose-lang/goose/machine/async_disk\"\n\t\"github.com/goose-lang/goose/machine/disk\"\n)\n\n"
+                                  "func Sizes(d disk.Disk, a async_disk.Disk) uint64 {\n\treturn d.Size() + a.Size()\n}\n"},
+               "viadep": {"p.go": "package viadep\n\nimport (\n\t\"example.com/m/leafdisk\"\n\t\"github.com/mit-pdos/gokv/grove_ffi\"\n)\n\n"
+                                  "func Both() uint64 {\n\treturn leafdisk.Blocks() + grove_ffi.Token()\n}\n"},
+               "leafdisk": {"p.go": "package leafdisk\n\nimport \"github.com/goose-lang/goose/machine/disk\"\n\nfunc Blocks() uint64 {\n\treturn disk.Size()\n}\n"},
+               "plain": {"p.go": "package plain\n\nfunc One() uint64 {\n\treturn 1\n}\n"}}
+        root = os.path.join(scratch, "two")
+        gomod.write_module(root, two)
+        for flags, pats in (([], ["./direct"]), ([], ["./viadep"]), (["-ignore-errors"], ["./..."]), ([], ["./..."])):
+            rc, out, err = gomod.run_goose(root, flags, pats)
+            stats["refusal_runs"] += 1
+            inp = {"packages": two, "flags": flags, "patterns": pats}
+            if is_crash(rc, err) or "fatal error" in err:
+                crash("refusal", inp, err)
+                continue
+            errs = check_errors(inp, rc, err, None)
+            refused = [pk for pk in ("direct", "viadep") if pats == ["./..."] or pats == ["./" + pk]]
+            located = {os.path.basename(os.path.dirname(f)) for cat, msg, f, line in errs if cat in CATEGORIES and f}
+            if "could not load" in err or "patterns matched no" in err:
+                raise C.Infra("the refusal scenario does not load: " + err[-400:])
+            missing = [pk for pk in refused if pk not in located]
+            if missing and not found:
+                found = True
+                ctx.violation("counterexample", "a type-correct package is refused without a structured, located error",
+                              dict(inp, proto="cli-error"), expected="for each refused package an error `[category]: … src: file:line:col` inside that package",
+                              observed={"refused_without_structured_error": missing, "exit": rc, "stderr_tail": err[-800:]})
+            if pats == ["./..."]:
+                tr = gomod.tree(os.path.join(root, "Goose"))
+                if not any(rel.endswith("plain.v") for rel in tr) and not found:
+                    found = True
+                    ctx.violation("counterexample", "a refused package stops its neighbours from being translated",
+                                  dict(inp, proto="cli-error"), expected="plain.v and leafdisk.v are written", observed={"files": sorted(tr), "stderr_tail": err[-600:]})
+            shutil.rmtree(os.path.join(root, "Goose"), ignore_errors=True)
+        shutil.rmtree(root, ignore_errors=True)
     finally:
         shutil.rmtree(scratch, ignore_errors=True)
     for k, e in known_hits.items():
